@@ -1109,6 +1109,45 @@ func (c *Ctx) setterTotality(r *Report, prefix string) {
 			Spec: &domSpec{ExactLenParam: -1, NonNil: map[string]bool{"attr": true},
 				IntDom: map[string][2]int64{"attrType": {*k, *k}}, LenDom: map[string][2]int64{"value": {in.lo, in.hi}}}})
 	}
+	// the words / bits fields the setter derives from len(value) are computed without wrap-around
+	ruleW := prefix + "aka.setter-fields-no-wrap"
+	r.Rule(ruleW, "in every domain instance of the setter, each narrowing conversion on the way to the stored length (words) and bit-length fields has an operand that provably fits the narrower type (linear arithmetic over len(value) and the attribute type): the stored field is the intended quotient / product, not its residue", 9)
+	for _, rt := range roots {
+		if rt.Fn == nil {
+			continue
+		}
+		d := &domAn{c: c, specs: map[*ssa.Function]*domSpec{}, memo: map[string]domVerdict{}, stack: map[string]bool{}}
+		f := c.NewFA(rt.Fn)
+		x := &domFn{d: d, f: f, spec: rt.Spec, facts: d.domFacts(f, rt.Spec), memo: map[*ssa.BasicBlock]*domVerdict{}, open: map[*ssa.BasicBlock]bool{}}
+		n := 0
+		for _, b := range rt.Fn.Blocks {
+			if dead, _ := x.blockInfeasible(b); dead {
+				continue
+			}
+			for _, ins := range b.Instrs {
+				st, ok := ins.(*ssa.Store)
+				if !ok {
+					continue
+				}
+				fa, ok := st.Addr.(*ssa.FieldAddr)
+				if !ok {
+					continue
+				}
+				fk := strings.TrimPrefix(FieldKey(fa.X.Type(), fa.Field), "field:")
+				if fk != "eap.EapAkaPrimeAttr.length" && fk != "eap.EapAkaPrimeAttr.reserved" {
+					continue
+				}
+				n++
+				facts := append(append([]Fact{}, x.facts...), f.FactsAt(b)...)
+				bad := narrowingLoss(f, st.Val, facts, 0)
+				key := "[" + rt.Label + "] " + fk + " := " + c.SrcExpr(st)
+				r.Check(bad == "", ruleW, key, c.InstrPos(st), "every narrowing conversion in the stored expression keeps its operand's value on this instance", bad)
+			}
+		}
+		if n == 0 {
+			r.undecided(ruleW, "["+rt.Label+"] stores", c.Pos(rt.Fn.Pos()), "no store of the length / bit-length fields is reachable in this instance")
+		}
+	}
 	c.domainTotalRoots(r, prefix+"aka.setter-accepts-domain",
 		"the attribute setter accepts every value size of the domain: for AT_RAND/AT_AUTN/AT_MAC with 16 octets, AT_KDF with 2, AT_RES with 4..16, AT_KDF_INPUT with 0..300 and AT_CHECKCODE with 0, 20 or 32 octets no error exit of setAttr is reachable (the case dispatch and every size test are refuted by linear arithmetic over the attribute type and len(value))",
 		9, map[*ssa.Function]*domSpec{}, roots)
@@ -1385,4 +1424,115 @@ func (c *Ctx) encodeTotality(r *Report, prefix string) {
 	c.domainTotalRoots(r, rule,
 		"no error exit of a Marshal method, of the container / message / header encoders or of EAP.Marshal is reachable for a message of the encodable domain (C03's quantifier: SPIs <= 255 octets, 1..255 selectors of type 7 with 4-octet or type 8 with 16-octet addresses, >= 1 transform per proposal, non-empty TLV values, Delete count = number of SPIs, non-empty EAP identity / nak / notification data, every length fits its field): each is behind a test refuted by linear arithmetic over those facts, a 'does not fit its field' test, or the failure of a nested encoder that is itself a root",
 		25, map[*ssa.Function]*domSpec{}, withExits)
+}
+
+// narrowingLoss walks the expression that computes v and returns a description of the first narrowing
+// integer conversion whose operand is not provably inside the target type under facts ("" if none).
+func narrowingLoss(f *FA, v ssa.Value, facts []Fact, depth int) string {
+	if depth > 8 {
+		return ""
+	}
+	switch e := v.(type) {
+	case *ssa.Convert:
+		if tlo, thi, ok := f.typeRange(e.Type()); ok {
+			if slo, shi, ok2 := f.typeRange(e.X.Type()); ok2 && (slo < tlo || shi > thi) {
+				l := f.LFOf(e.X)
+				okLo, _ := f.Prove(l.add(konst(tlo), -1), facts)
+				okHi, _ := f.Prove(konst(thi).add(l, -1), facts)
+				if !okLo || !okHi {
+					// quotients and shifts are atoms of their own: bound them through their numerator
+					if lo, hi := boundsUnder(f, e.X, facts, 0); lo >= tlo && hi <= thi {
+						return narrowingLoss(f, e.X, facts, depth+1)
+					}
+				}
+				if !okLo || !okHi {
+					lo, hi := boundsUnder(f, e.X, facts, 0)
+					return fmt.Sprintf("conversion to %s of %s, which ranges over [%d, %d] on this instance: the stored value is its residue, not the value", e.Type(), f.Show(l), lo, hi)
+				}
+			}
+		}
+		return narrowingLoss(f, e.X, facts, depth+1)
+	case *ssa.BinOp:
+		if s := narrowingLoss(f, e.X, facts, depth+1); s != "" {
+			return s
+		}
+		return narrowingLoss(f, e.Y, facts, depth+1)
+	case *ssa.UnOp:
+		if e.Op != token.MUL {
+			return narrowingLoss(f, e.X, facts, depth+1)
+		}
+	case *ssa.ChangeType:
+		return narrowingLoss(f, e.X, facts, depth+1)
+	case *ssa.Phi:
+		for _, ed := range e.Edges {
+			if ed == ssa.Value(e) {
+				continue
+			}
+			if s := narrowingLoss(f, ed, facts, depth+2); s != "" {
+				return s
+			}
+		}
+	}
+	return ""
+}
+
+// boundsUnder bounds an integer expression under facts, looking through division, remainder and shifts by
+// constants (which E1 represents as atoms with context-free bounds).
+func boundsUnder(f *FA, v ssa.Value, facts []Fact, depth int) (int64, int64) {
+	env := f.refine(facts)
+	lo, hi := f.bounds(f.LFOf(v), env)
+	if depth > 6 {
+		return lo, hi
+	}
+	tighten := func(l2, h2 int64) (int64, int64) {
+		if l2 > lo {
+			lo = l2
+		}
+		if h2 < hi {
+			hi = h2
+		}
+		return lo, hi
+	}
+	switch e := v.(type) {
+	case *ssa.Convert:
+		if tlo, thi, ok := f.typeRange(e.Type()); ok {
+			xl, xh := boundsUnder(f, e.X, facts, depth+1)
+			if xl >= tlo && xh <= thi {
+				return tighten(xl, xh)
+			}
+		}
+	case *ssa.BinOp:
+		k, isK := e.Y.(*ssa.Const)
+		if !isK || k.Value == nil {
+			return lo, hi
+		}
+		kv, ok := constInt64(k.Value)
+		if !ok {
+			return lo, hi
+		}
+		xl, xh := boundsUnder(f, e.X, facts, depth+1)
+		switch e.Op {
+		case token.QUO:
+			if kv > 0 && xl >= 0 && xh < INF {
+				return tighten(xl/kv, xh/kv)
+			}
+		case token.SHR:
+			if kv >= 0 && kv < 62 && xl >= 0 && xh < INF {
+				return tighten(xl>>uint(kv), xh>>uint(kv))
+			}
+		case token.REM:
+			if kv > 0 && xl >= 0 {
+				h := kv - 1
+				if xh < h {
+					h = xh
+				}
+				return tighten(0, h)
+			}
+		case token.MUL:
+			if kv >= 0 && xl >= 0 && xh < INF/(kv+1) {
+				return tighten(xl*kv, xh*kv)
+			}
+		}
+	}
+	return lo, hi
 }
